@@ -1468,7 +1468,6 @@ func (c *Check) decodedTimesEncodable(fs []*Func) {
 	c.req(n >= 1, "C20.3", "decoded-times", token.NoPos, fmt.Sprintf("%d time fields of JSON-decoded types in handler-reachable code", n))
 }
 
-
 // insideNonNilGuard: the statement lies in the then-branch of an if statement whose condition is (a conjunction containing)
 // "<expr> != nil" for the given expression text.
 func insideNonNilGuard(body *ast.BlockStmt, target ast.Node, expr string) bool {
